@@ -133,6 +133,64 @@ Section Guards.
   Definition g_repeated_composite (fuel : nat) (sels : list sel) : bool :=
     has_dup_s (flat_map (occ_comp fuel "") sels).
 
+  (* guard 8: one selection set holds two fragments (inline or spread) that select a same response
+     key through fragments nested inside them: a fragment that holds fragments stays where its
+     parent is and is extracted on its own, so what both send to another service becomes one step
+     per fragment at the same insertion point *)
+  Fixpoint frag_keys (fuel : nat) (s : sel) {struct fuel} : list string :=
+    match fuel with
+    | O => []
+    | S fuel' =>
+        (fix one (s : sel) {struct s} : list string :=
+           let many := fix many (l : list sel) {struct l} : list string :=
+                         match l with [] => [] | x :: r => one x ++ many r end in
+           match s with
+           | Field alias name _ _ _ => [rkey alias name]
+           | Inline _ _ sub => many sub
+           | Spread name _ =>
+               match frag_for name frags with
+               | Some f => flat_map (frag_keys fuel') (f_sel f)
+               | None => []
+               end
+           end) s
+    end.
+
+  Fixpoint dedup_s (l : list string) : list string :=
+    match l with [] => [] | x :: r => if str_mem x r then dedup_s r else x :: dedup_s r end.
+
+  (* the keys a fragment selects through the fragments nested directly inside it *)
+  Definition nested_keys (fuel : nat) (s : sel) : list string :=
+    let inner := flat_map (fun x => match x with Field _ _ _ _ _ => [] | _ => frag_keys fuel x end) in
+    match s with
+    | Field _ _ _ _ _ => []
+    | Inline _ _ sub => inner sub
+    | Spread name _ => match frag_for name frags with Some f => inner (f_sel f) | None => [] end
+    end.
+
+  Definition set_repeats (fuel : nat) (sels : list sel) : bool :=
+    has_dup_s (flat_map (fun s => dedup_s (nested_keys fuel s)) sels).
+
+  Fixpoint rep_sets (fuel : nat) (s : sel) {struct fuel} : bool :=
+    match fuel with
+    | O => false
+    | S fuel' =>
+        (fix one (s : sel) {struct s} : bool :=
+           let many := fix many (l : list sel) {struct l} : bool :=
+                         match l with [] => false | x :: r => one x || many r end in
+           match s with
+           | Field _ _ _ _ sub => set_repeats fuel sub || many sub
+           | Inline _ _ sub => set_repeats fuel sub || many sub
+           | Spread name _ =>
+               match frag_for name frags with
+               | Some f => set_repeats fuel' (f_sel f) || existsb (rep_sets fuel') (f_sel f)
+               | None => false
+               end
+           end) s
+    end.
+
+  Definition g_repeated_in_fragments (fuel : nat) (sels : list sel) : bool :=
+    set_repeats fuel sels || existsb (rep_sets fuel) sels.
+
   (* guard 4: the key id requested only under a type condition that narrows the enclosing type *)
   Definition g_id_narrowed (ptype : string) (narrowed : bool) (s : sel) : bool :=
     match s with Field alias name _ _ _ => narrowed && String.eqb (rkey alias name) "id" | _ => false end.
@@ -169,5 +227,6 @@ Section Guards.
     (if g_directive_b fuel sels || existsb (exists_sel fuel g_cond_frag_without_id root false) sels then [3] else []) ++
     (if existsb (exists_sel fuel g_id_narrowed root false) sels then [4] else []) ++
     (if g_fragments fuel sels then [5] else []) ++
-    (if g_repeated_composite fuel sels then [7] else []).
+    (if g_repeated_composite fuel sels then [7] else []) ++
+    (if g_repeated_in_fragments fuel sels then [8] else []).
 End Guards.
